@@ -95,6 +95,7 @@ def correspondence(ctx, violations, known_hits):
     profiles = ("debug",)
     r = dbgcommon.run_dbg_cases(ctx, cases, tags, violations, profiles, aux=AUX,
                                 note="model: writes outside [origin, xFE00) are refused and change nothing (C13_refuse); sums are formed without wrap (C13_no_wrap)")
+    real = dbgcommon.cli_cross(ctx, specs, violations, limit=(30 if ctx.tier == "quick" else 600))
     ctx.cleanup()
     return dbgcommon.coverage(r,
         "target addresses (quick: the boundary set {0, origin-1, origin, x7FFF, x8000, xFDFF, xFE00, xFFFF, ...} plus random; thorough: "
@@ -102,7 +103,7 @@ def correspondence(ctx, violations, known_hits):
         "PCs) x {goto, move, break add, break remove} at four origins; offsets at the signed-16-bit extremes from high PCs/labels "
         "(sums beyond 16 bits); the PC itself parked outside user space (by `eval jmp`) x offsets {0, +-1, +-2, +-x100} x all six commands; all eight registers x boundary values; inspection commands on arbitrary states; after each: "
         "`registers; break list; exit` and a full comparison of machine (65,536 words) and breakpoint list", profiles,
-        exhaustive=(ctx.tier != "quick"), exhaustive_over="all 65,536 goto/move targets at origin x3000 (thorough tier)")
+        exhaustive=(ctx.tier != "quick"), exhaustive_over="all 65,536 goto/move targets at origin x3000 (thorough tier)", real_binary_without_hooks=real)
 
 
 def replay(ctx, payload):
